@@ -3,7 +3,7 @@
    do not strike) and, without the field check, the matching grants list only fields of the
    resource (F4), the model's answer satisfies the oracle.  Hence: code agrees with model on a
    request + these side conditions  =>  the observed answer is the declared one. *)
-From Coq Require Import List NArith Bool Lia Relations.
+From Coq Require Import List NArith Bool Lia Relations Arith.
 From V Require Import Lib.Check Gen.Params C13_ACL.Model C13_ACL.Proofs C13_ACL.Roles C13_ACL.Closure.
 Import ListNotations.
 Local Open Scope N_scope.
@@ -150,3 +150,46 @@ Proof.
   - apply find_some in F. destruct F as [F1 F2]. apply Hu; assumption.
   - exfalso. pose proof (find_none _ _ F t Hin) as X. cbn in X. congruence.
 Qed.
+
+(* ---------- declared rules: order and GRANT ALL, for the repaired code ---------- *)
+
+Lemma compiled_order_cur : parser_acl_grants_first = false -> forall l, compiled_order l = l.
+Proof. intros H l. unfold compiled_order, compiled_order_gen. rewrite H. reflexivity. Qed.
+
+(* rules passed to the builder one by one (a block each) are never reordered, whatever the compiler does *)
+Lemma span_other b l : match l with d :: _ => dblk d <> b | [] => True end -> span_blk b l = ([], l).
+Proof. destruct l as [|d r]; [reflexivity|]. intros H. cbn. apply N.eqb_neq in H. rewrite H. reflexivity. Qed.
+
+Lemma reorder_distinct_blocks : forall l fuel, NoDup (map dblk l) -> (length l <= fuel)%nat -> reorder fuel l = l.
+Proof.
+  induction l as [|d r IH]; intros fuel ND L; [destruct fuel; reflexivity|].
+  destruct fuel as [|f]; [cbn in L; lia|]. cbn [reorder span_blk]. rewrite N.eqb_refl. cbn [fst snd].
+  inversion ND as [|? ? Nin ND']; subst.
+  rewrite (span_other (dblk d) r).
+  - cbn [fst snd filter]. destruct (rallow (drl d)); cbn; rewrite IH; auto; cbn in L; lia.
+  - destruct r as [|e r']; [exact I|]. intros E. apply Nin. left. exact E.
+Qed.
+
+Lemma compiled_order_distinct_blocks gf l : NoDup (map dblk l) -> compiled_order_gen gf l = l.
+Proof. intros H. unfold compiled_order_gen. destruct gf; [|reflexivity]. apply reorder_distinct_blocks; [exact H|apply Nat.le_refl]. Qed.
+
+Lemma find_filter {T} (f : T -> bool) l : find f l = match filter f l with [] => None | x :: _ => Some x end.
+Proof. induction l as [|x l IH]; [reflexivity|]. cbn. destruct (f x); [reflexivity|exact IH]. Qed.
+
+Lemma lN_eqb_eq (a b : list N) : list_eqb N.eqb a b = true -> a = b.
+Proof. apply list_eqb_eq. intros x y. apply N.eqb_eq. Qed.
+
+(* an accepted ALL rule gives every resource it matches exactly the operations applicable to it *)
+Lemma accepted_all_ops S d t : accepted_gen true S d = true -> dall d = true ->
+  In t (vis_types S (dws d)) -> fmatch (rflt (drl d)) t = true -> rops (eff_rule S d) = taclops t.
+Proof.
+  intros A Ha Hin Hm. unfold accepted_gen in A. rewrite Ha in A. cbn in A.
+  unfold eff_rule. rewrite Ha. cbn [rops]. rewrite find_filter. unfold uniform in A.
+  assert (Hf : In t (filter (fmatch (rflt (drl d))) (vis_types S (dws d)))) by (apply filter_In; split; assumption).
+  destruct (filter (fmatch (rflt (drl d))) (vis_types S (dws d))) as [|t0 ts]; [destruct Hf|].
+  destruct Hf as [->|Hf]; [reflexivity|]. rewrite forallb_forall in A. symmetry. apply lN_eqb_eq. apply A. exact Hf.
+Qed.
+
+Lemma accepted_all_ops_cur (U : acl_all_requires_uniform_ops = true) : forall S d t, accepted S d = true -> dall d = true ->
+  In t (vis_types S (dws d)) -> fmatch (rflt (drl d)) t = true -> rops (eff_rule S d) = taclops t.
+Proof. unfold accepted. rewrite U. exact accepted_all_ops. Qed.
